@@ -139,6 +139,10 @@ pub fn malformed_payloads() -> Vec<(&'static str, Vec<u8>)> {
         ("leaf without the envelope tag", leaf("x").to_cbor_data()),
         ("truncated", vec![0xd8, 0xc8]),
         ("trailing byte", { let mut b = env(leaf("x")); b.push(0); b }),
+        ("node without the envelope tag", arr(vec![leaf("x"), { let mut m = Map::new(); m.insert(leaf("p"), leaf("o")); CBOR::from(m) }]).to_cbor_data()),
+        ("assertion map without the envelope tag", { let mut m = Map::new(); m.insert(leaf("p"), leaf("o")); CBOR::from(m).to_cbor_data() }),
+        ("known value without the envelope tag", CBOR::from(4u64).to_cbor_data()),
+        ("elided digest without the envelope tag", CBOR::to_byte_string(vec![7u8; 32]).to_cbor_data()),
         ("not CBOR", vec![0xff, 0xff, 0xff]),
         ("empty", vec![]),
     ]
@@ -149,7 +153,9 @@ fn c08_malformed_content() -> R {
     let ps = malformed_payloads();
     let (name, payload) = &ps[choice(ps.len())];
     let key = test_key();
-    let decl = match choice(2) { 0 => sha(payload), _ => dg(&build(&l(1))) };
+    // declared digest: SHA-256 of the content, an unrelated digest, or the digest the content would have were it read as an envelope written without its tag
+    let as_untagged = CBOR::try_from_data(payload).ok().and_then(|c| Envelope::from_untagged_cbor(c).ok()).map(|x| dg(&x));
+    let decl = match choice(3) { 0 => sha(payload), 1 => dg(&build(&l(1))), _ => match as_untagged { Some(d) => d, None => return Ok(()) } };
     op("SymmetricKey::encrypt_with_digest + Envelope::try_from(EncryptedMessage)");
     let msg = key.encrypt_with_digest(payload.clone(), Digest::from_data(decl), Some(fixed_nonce()));
     let forged = must!(Envelope::try_from(msg), "encrypted message with digest refused");
@@ -231,6 +237,21 @@ fn c13_roundtrip() -> R {
             let d = must!(Envelope::try_from_cbor_data(bytes(&c)), "decode of compressed envelope failed");
             ensure!(bytes(&must!(d.uncompress(), "uncompress after decode failed")) == before, "uncompress after decode differs", "");
             if let Err(m) = well_formed(&c) { return rt::viol("compressed envelope not canonical", m); }
+        }
+        1 if !e.assertions().is_empty() && flag() => {
+            // one assertion compressed in place by replacing it with its compressed form, and back
+            op("replace_assertion (an assertion by its compressed form and back)");
+            let asr = e.assertions();
+            let a0 = asr[choice(asr.len())].clone();
+            let Ok(ca) = a0.compress() else { return Ok(()) };
+            if kind(&a0) == Kind::Compressed { return Ok(()); }
+            let r = must!(e.replace_assertion(a0.clone(), ca.clone()), "replace refused");
+            ensure!(dg(&r) == dg(&e), "digest changed by compressing an assertion in place", "{}", name);
+            ensure!(r.assertions().iter().any(|x| bytes(x) == bytes(&ca)), "replacing an assertion by its compressed form left it uncompressed", "{}", name);
+            let back = must!(r.replace_assertion(ca.clone(), must!(ca.uncompress(), "uncompress failed")), "replace refused");
+            ensure!(bytes(&back) == before, "compressing an assertion in place and uncompressing it again does not give the original", "{}", name);
+            let whole = must!(must!(r.compress(), "compress failed").uncompress(), "uncompress failed");
+            ensure!(bytes(&whole) == bytes(&r), "uncompress(compress(e)) is not identical to e", "{} with one assertion compressed", name);
         }
         1 => {
             op("compress_subject");
@@ -333,7 +354,9 @@ fn c13_misdeclared() -> R {
 fn c13_malformed_content() -> R {
     let ps = malformed_payloads();
     let (name, payload) = &ps[choice(ps.len())];
-    let decl = match choice(2) { 0 => sha(payload), _ => dg(&build(&l(1))) };
+    // declared digest: SHA-256 of the content, an unrelated digest, or the digest the content would have were it read as an envelope written without its tag
+    let as_untagged = CBOR::try_from_data(payload).ok().and_then(|c| Envelope::from_untagged_cbor(c).ok()).map(|x| dg(&x));
+    let decl = match choice(3) { 0 => sha(payload), 1 => dg(&build(&l(1))), _ => match as_untagged { Some(d) => d, None => return Ok(()) } };
     op("Compressed::from_uncompressed_data + Envelope::try_from(Compressed)");
     let c = Compressed::from_uncompressed_data(payload.clone(), Some(Digest::from_data(decl)));
     let forged = must!(Envelope::try_from(c), "compressed with digest refused");
@@ -478,7 +501,7 @@ pub fn prop_c08() -> Prop {
                 bounds: "content A x declared digest of B, A and B every non-node shape of <=5 elements + 2 larger (wrapped node) x 0..2 assertions added to the encrypted element x direct / decoded x every digest order: decryption must fail whenever digest(A) != digest(B)",
                 api: &["Envelope::try_from(EncryptedMessage)", "decrypt_subject"] },
             Scenario { name: "malformed_content", f: c08_malformed_content, thorough_only: false,
-                bounds: "10 plaintexts that are not the encoding of a well-formed envelope (node without assertions, empty node, leaf as assertion element, two-entry map, 31-byte elided digest, missing envelope tag, truncated, trailing byte, not CBOR, empty) x declared digest {SHA-256 of the plaintext, another digest} x bare / decoded / carrying an assertion: decrypt_subject returns an error",
+                bounds: "14 plaintexts that are not the encoding of a well-formed envelope (a node / assertion / known value / elided digest written without the envelope tag, node without assertions, empty node, leaf as assertion element, two-entry map, 31-byte elided digest, missing envelope tag, truncated, trailing byte, not CBOR, empty) x declared digest {SHA-256 of the plaintext, another digest, the digest the plaintext would have read as an untagged envelope} x bare / decoded / carrying an assertion: decrypt_subject returns an error",
                 api: &["Envelope::try_from(EncryptedMessage)", "decrypt_subject"] },
             Scenario { name: "tamper", f: c08_tamper, thorough_only: false,
                 bounds: "every single bit of the ciphertext, the declared digest (aad), the nonce and the authentication tag of one encrypted subject flipped (choice variables, exhaustively forked), bare and as node subject. ChaCha20-Poly1305 itself is executed, not solver-decided; multi-bit tampering is outside",
@@ -499,7 +522,7 @@ pub fn prop_c13() -> Prop {
                 bounds: "content A x declared digest of B over every shape of <=5 elements, bare / decoded / with an assertion; compressed element without digest",
                 api: &["Envelope::try_from(Compressed)", "uncompress", "uncompress_subject"] },
             Scenario { name: "malformed_content", f: c13_malformed_content, thorough_only: false,
-                bounds: "10 contents that are not the encoding of a well-formed envelope (node without assertions, empty node, leaf as assertion element, two-entry map, 31-byte elided digest, missing envelope tag, truncated, trailing byte, not CBOR, empty) x declared digest {SHA-256 of the content, another digest} x bare / decoded / carrying an assertion: uncompress(_subject) returns an error",
+                bounds: "14 contents that are not the encoding of a well-formed envelope (a node / assertion / known value / elided digest written without the envelope tag, node without assertions, empty node, leaf as assertion element, two-entry map, 31-byte elided digest, missing envelope tag, truncated, trailing byte, not CBOR, empty) x declared digest {SHA-256 of the content, another digest, the digest the content would have read as an untagged envelope} x bare / decoded / carrying an assertion: uncompress(_subject) returns an error",
                 api: &["Envelope::try_from(Compressed)", "uncompress", "uncompress_subject"] },
             Scenario { name: "corrupt", f: c13_corrupt, thorough_only: false,
                 bounds: "one compressed node: every byte of the DEFLATE stream XOR 3 masks, every truncation length, 3 checksums, 4 declared sizes, trailing garbage (choice variables, exhaustively forked; DEFLATE and CRC-32 themselves are executed, not solver-decided)",
